@@ -448,6 +448,12 @@ theorem entropy_only_collapses_siblings (s : SeedSeq) (i j : Nat) :
     simp [SeedSeq.child, SeedSeq.copy] at e
     exact h e
 
+/-- A site that stores its seed material in a caller-owned container is not seeded: the separation of
+component states (`World.comp` is indexed by component) is exactly what such a store gives up. -/
+theorem escaped_seed_not_seeded (p : String) :
+    (⟨"f.py", 1, 0, "E.__init__", .escape, "es_kwargs['seed'] <- seed material", .callerOwned p⟩ : Site).seeded
+      = false := rfl
+
 /-- **Non-vacuity / sensitivity of T09.4.**  The check accepts the shape the source
 has (`opt_seed, ranker_seed = seed_sequence.spawn(2)`) and rejects a reused child,
 an out-of-range child, and a consumer that is handed the un-spawned parent. -/
